@@ -408,7 +408,7 @@ func c36Run(r *simkit.Run) {
 			gotName = gotName[:i]
 		}
 
-		r.Event(fmt.Sprintf("%s %s %s cid=%q -> %s %s allowed=%v", who, addr, handler, cid, res.RulesetType, res.Limiter, allowed))
+		r.Event(fmt.Sprintf("@%v %s %s %s cid=%q -> %s %s allowed=%v", r.Now(), who, addr, handler, cid, res.RulesetType, res.Limiter, allowed))
 
 		if haveRes && (res.RulesetType != wantType || gotName != wantRule.name()) {
 			sig := fmt.Sprintf("want-%s-got-%s", wantType, res.RulesetType)
@@ -522,8 +522,28 @@ func c36Run(r *simkit.Run) {
 				if float64(count) > limit {
 					sig := "same-limiter"
 
+					// an eviction between the sample of the pool taken before a request and the request itself is not
+					// seen by that sample (other clients run in between): under max-addrs pressure the address may also
+					// have been pushed out when at least MaxAddrs other addresses were served inside the window
+					others := map[string]bool{}
+
+					if args.MaxAddrs > 0 {
+						for okey, oreqs := range history {
+							oaddr := okey[:strings.LastIndex(okey, "/")]
+							if oaddr == addr {
+								continue
+							}
+
+							for _, o := range oreqs {
+								if o.at >= reqs[i].at && o.at <= reqs[j].at {
+									others[oaddr] = true
+								}
+							}
+						}
+					}
+
 					switch {
-					case evicted[addr]:
+					case evicted[addr], args.MaxAddrs > 0 && uint64(len(others)) >= args.MaxAddrs:
 						sig = "after-eviction-by-max-addrs"
 					case reqs[i].idle >= args.ExpireAddr:
 						// the window starts with the first request after an idle period: the shrink daemon
